@@ -746,6 +746,10 @@ func (vfs *MemFS) Remove(name string) error {
 	child.Lock()
 	defer child.Unlock()
 
+	if !parent.checkSticky(child, vfs.User()) {
+		return &fs.PathError{Op: op, Path: name, Err: vfs.err.OpNotPermitted}
+	}
+
 	if c, ok := child.(*dirNode); ok {
 		if len(c.children) != 0 {
 			return &fs.PathError{Op: op, Path: name, Err: vfs.err.DirNotEmpty}
@@ -816,32 +820,58 @@ func (vfs *MemFS) RemoveAll(path string) error {
 		return &fs.PathError{Op: op, Path: path, Err: vfs.err.PermDenied}
 	}
 
+	child.Lock()
+	defer child.Unlock()
+
+	if !parent.checkSticky(child, vfs.User()) {
+		return &fs.PathError{Op: op, Path: path, Err: vfs.err.OpNotPermitted}
+	}
+
 	parent.removeChild(pi.Part())
 	child.delete()
 
 	return nil
 }
 
-func (vfs *MemFS) removeAll(parent *dirNode) error {
+// removeAll removes every entry of the directory it can and returns the first error it encounters.
+func (vfs *MemFS) removeAll(parent *dirNode) (err error) {
 	parent.mu.Lock()
 	defer parent.mu.Unlock()
 
-	if ok := parent.checkPermission(avfs.OpenWrite, vfs.User()); !ok {
+	// the directory is read and modified.
+	if ok := parent.checkPermission(avfs.OpenRead|avfs.OpenWrite|avfs.OpenLookup, vfs.User()); !ok {
 		return vfs.err.PermDenied
 	}
 
-	for _, child := range parent.children {
+	for name, child := range parent.children {
+		if !parent.checkSticky(child, vfs.User()) {
+			if err == nil {
+				err = vfs.err.OpNotPermitted
+			}
+
+			continue
+		}
+
 		if c, ok := child.(*dirNode); ok {
-			err := vfs.removeAll(c)
-			if err != nil {
-				return err
+			e := vfs.removeAll(c)
+			if e != nil {
+				// the subdirectory is not empty and stays.
+				if err == nil {
+					err = e
+				}
+
+				continue
 			}
 		}
 
+		child.Lock()
 		child.delete()
+		child.Unlock()
+
+		parent.removeChild(name)
 	}
 
-	return nil
+	return err
 }
 
 // Rename renames (moves) oldpath to newpath.
@@ -905,6 +935,15 @@ func (vfs *MemFS) Rename(oldpath, newpath string) error {
 
 	if oPI.Path() == nPI.Path() && (!oIsDir || vfs.OSType() == avfs.OsWindows) {
 		return nil
+	}
+
+	if !oParent.checkSticky(oChild, vfs.User()) || nChild != nil && !nParent.checkSticky(nChild, vfs.User()) {
+		return &os.LinkError{Op: op, Old: oldpath, New: newpath, Err: vfs.err.OpNotPermitted}
+	}
+
+	if oIsDir && nParent != oParent && !oChild.checkPermission(avfs.OpenWrite, vfs.User()) {
+		// moving a directory to another directory changes its '..' entry.
+		return &os.LinkError{Op: op, Old: oldpath, New: newpath, Err: vfs.err.PermDenied}
 	}
 
 	if nChild != nil {
